@@ -206,7 +206,7 @@ theorem relay_meets_spec (c : Case) (wf : WF T c.self) :
         simpa using hcond
       rw [this]; rfl
   unfold specCase Result.obs
-  simp only [hQ, h1, h2, h3, h4, h5, h6, h7, h8, h9, h10, Bool.not_true, Bool.false_eq_true, if_false]
+  simp only [hQ, h1, h2, h3, h4, h5, h6, h7, h9, h10, Bool.not_true, Bool.false_eq_true, if_false]
   simp [relayFuel] <;> exact h8
 
 /-- **same_master.**  The choice of the zone master depends on names and connectedness only: two nodes of one zone that
@@ -291,6 +291,15 @@ example : specCase maxDepth exT ⟨3, Origin.loc, some 2, true⟩ { sent := [2, 
 example : specCase maxDepth exT ⟨2, Origin.loc, some 1, true⟩ { sent := [3, 0, 4], persist := false, originZone := none } = some .only_entitled := by decide
 example : specCase maxDepth { exT with conn := fun _ _ => false } ⟨2, Origin.loc, some 2, true⟩ { sent := [], persist := false, originZone := none } = some .logged_not_dropped := by decide
 example : specCase maxDepth exT ⟨0, ⟨some 2, some 1⟩, some 2, true⟩ { sent := [1], persist := false, originZone := none } = some .origin_zone_copied := by decide
+/-- … a second copy on an older connection, a master chosen by anything but names and connectedness, an entitled
+    parent zone that is reachable and gets nothing, two peers that see each other and disagree on the master -/
+example : specCase maxDepth exT ⟨2, Origin.loc, some 2, true⟩ { sent := [4, 3, 0], persist := false, originZone := none, extraCopies := 1 } = some .one_copy_per_endpoint := by decide
+example : specCase maxDepth exT ⟨3, Origin.loc, some 2, true⟩ { sent := [2], persist := false, originZone := none, master := some 3 } = some .master_by_names_and_connectedness := by decide
+example : specCase maxDepth exT ⟨2, Origin.loc, some 2, true⟩ { sent := [4, 3], persist := false, originZone := none } = some .forwarded_when_reachable := by decide
+example : specMasterPair exT 2 3 (some 2) (some 2) = none ∧ specMasterPair exT 2 3 (some 2) (some 3) = some .master_by_names_and_connectedness := by decide
+/-- `syncing` changes what is queued, not who is master and not what is handed over -/
+example : queued { exT with syncing := fun _ e => e == 3 } 2 (relay { exT with syncing := fun _ e => e == 3 } 2 Origin.loc (some 2) true) = [4, 0] ∧
+    getMaster { exT with syncing := fun _ e => e == 2 } 3 = some 2 := by decide
 
 /-- Beyond the property's quantifier (it speaks of one or two endpoints per zone): with THREE members in the node's own
     zone the test "last examined member connected" (apilistener.cpp:1262-1268, 1313) lets a message for a disconnected
